@@ -566,7 +566,10 @@ func c13Driver(r *vf.Run, sid string, sp *serverProc, rng *rand.Rand, ds *gen.Da
 		var gerr, ferr error
 		if p, msg, _ := vf.Try(func() {
 			var rows *sql.Rows
-			if rows, gerr = gdb.Query(text, args...); gerr == nil {
+			// (the grpc driver sets no deadline of its own: a server that stops answering would hold the check for ever)
+			gctx, gcancel := context.WithTimeout(context.Background(), 120*time.Second)
+			defer gcancel()
+			if rows, gerr = gdb.QueryContext(gctx, text, args...); gerr == nil {
 				gt, gerr = readRows(rows)
 			}
 			if rows, ferr = fdb.Query(text, args...); ferr == nil {
@@ -588,6 +591,9 @@ func c13Driver(r *vf.Run, sid string, sp *serverProc, rng *rand.Rand, ds *gen.Da
 		if gerr != nil || ferr != nil {
 			w["grpc_error"], w["file_error"] = fmt.Sprint(gerr), fmt.Sprint(ferr)
 			r.Violation(qid, "driver-error", w)
+			if gerr != nil && (strings.Contains(gerr.Error(), "DeadlineExceeded") || strings.Contains(gerr.Error(), "deadline exceeded")) {
+				return // the server has stopped answering: every further statement would wait out its deadline
+			}
 			continue
 		}
 		if d := compareTables(gt, expectedTable(want, gb)); d != "" {
@@ -640,7 +646,9 @@ func c13Driver(r *vf.Run, sid string, sp *serverProc, rng *rand.Rand, ds *gen.Da
 			defer wg.Done()
 			for i := 0; i < 60 && bad.Load() == 0; i++ {
 				if g%3 == 0 {
-					rows, err := gdb.Query(rejected[(g+i)%len(rejected)])
+					rctx, rcancel := context.WithTimeout(context.Background(), 120*time.Second)
+					rows, err := gdb.QueryContext(rctx, rejected[(g+i)%len(rejected)])
+					rcancel()
 					if err == nil {
 						rows.Close()
 						if bad.Add(1) == 1 {
@@ -651,10 +659,12 @@ func c13Driver(r *vf.Run, sid string, sp *serverProc, rng *rand.Rand, ds *gen.Da
 				}
 				c := good[(g*7+i)%len(good)]
 				var t sqlTable
-				rows, err := gdb.Query(c.text)
+				cctx, ccancel := context.WithTimeout(context.Background(), 120*time.Second)
+				rows, err := gdb.QueryContext(cctx, c.text)
 				if err == nil {
 					t, err = readRows(rows)
 				}
+				ccancel()
 				done.Add(1)
 				d := ""
 				if err != nil {
